@@ -30,6 +30,10 @@ fn embedding(ck: &mut Ck, p: &UInt, r: &UInt, k: u32) {
     }
     ck.ob(P_EMBED, &format!("embedding-degree-{k}"), ok, || json!({"p": hexu(p), "r": hexu(r), "k": k, "p^i = 1 mod r for proper divisors": smaller}));
 }
+/// towers of both groups must be fields before any equation over them is evaluated
+fn fields_ok(ck: &mut Ck, g1: &SwC, g2: &SwC) -> bool {
+    ck.ob(P_GROUPS, "BaseField/is-a-field", is_field(&g1.base) && is_field(&g2.base), || json!({"p": hexu(&g2.base.p)}))
+}
 fn groups(ck: &mut Ck, g1: &SwC, g2: &SwC, p: &UInt, r: Option<&UInt>) {
     let ok = g1.r == g2.r && g1.base.p == *p && g2.base.p == *p && r.map(|r| *r == g1.r).unwrap_or(true);
     ck.ob(P_GROUPS, "G1Config,G2Config/fields", ok, || json!({"r1": hexu(&g1.r), "r2": hexu(&g2.r)}));
@@ -57,6 +61,9 @@ fn sextic_twist(ck: &mut Ck, g1: &SwC, g2: &SwC, xi_flat: &[UInt], xi_depth: usi
 }
 
 pub fn check_bls12(ck: &mut Ck, c: &Bls12C) {
+    if !fields_ok(ck, &c.g1, &c.g2) {
+        return;
+    }
     let x = sx(&c.x, c.x_neg);
     let one = SInt::one();
     let r = &x * &x * &x * &x - &x * &x + &one;
@@ -79,6 +86,9 @@ pub fn check_bls12(ck: &mut Ck, c: &Bls12C) {
 }
 
 pub fn check_bn(ck: &mut Ck, c: &BnC) {
+    if !fields_ok(ck, &c.g1, &c.g2) {
+        return;
+    }
     let x = sx(&c.x, c.x_neg);
     let i = |k: i64| SInt::from(k);
     let x2 = &x * &x;
@@ -113,6 +123,10 @@ pub fn check_psi(ck: &mut Ck, g2: &SwC, xi_flat: &[UInt], twist: Twist, cx: &[UI
     let d = t.depth();
     let p = &t.p;
     let canon = |v: &[UInt]| v.len() == 2 && v.iter().all(|z| z < p);
+    if !is_field(t) {
+        ck.ob(P_TWIST, names.0, false, || json!({"base field": "not a field"}));
+        return;
+    }
     if d != 1 || !canon(cx) || !canon(cy) || !canon(xi_flat) || double.map(|v| !canon(v)).unwrap_or(false) {
         ck.ob(P_TWIST, names.0, false, || json!({"non-canonical": true}));
         return;
@@ -147,6 +161,9 @@ pub fn check_psi(ck: &mut Ck, g2: &SwC, xi_flat: &[UInt], twist: Twist, cx: &[UI
 }
 
 pub fn check_bw6(ck: &mut Ck, c: &Bw6C) {
+    if !fields_ok(ck, &c.g1, &c.g2) {
+        return;
+    }
     let x = sx(&c.x, c.x_neg);
     let i = |k: i64| SInt::from(k);
     let one = SInt::one();
@@ -202,6 +219,9 @@ pub fn check_bw6(ck: &mut Ck, c: &Bw6C) {
 
 /// MNT4 / MNT6 (and the crate-local cp6_782 engine, which uses the same constants as plain items)
 pub fn check_mnt(ck: &mut Ck, c: &MntC, ate_is_plain_bits: bool) {
+    if !fields_ok(ck, &c.g1, &c.g2) {
+        return;
+    }
     let one = UInt::one();
     let (p, r) = (&c.p, &c.r);
     groups(ck, &c.g1, &c.g2, p, Some(r));
